@@ -1,33 +1,54 @@
 """C15  Composed taskpools run strictly one after another.
 
 spec/Context/Compound.tla       the property: tasks of taskpool i only while i is the current one; the compound completes
-                                once, after the last one
+                                once, after the last one (the layout = tasks per member, 0 allowed, is chosen by Init)
 spec/Context/CompoundImpl.tla   implementation-shaped model of compound.c + parsec_context_add_taskpool + the local
-                                termination detector; refines Compound when taskpool_ready() of the compound comes after
-                                the startup hook; with the order of scheduling.c (ready first) TLC finds the compound
-                                completing before its first member (sensitivity run, see the report)
-spec/Context/CompoundTrace.tla  validation of real compositions of 1..20 generated PTG taskpools (the spaces of the
-                                members are computed by spec/PTG/JDFSem.tla from the program AST and the members' globals)
+                                termination detector: the startup hook and the completion callback of a member are the
+                                sequences of steps of the code, executed by threads with a call stack (a member without
+                                task completes NESTED inside add_taskpool, a tiny one CONCURRENTLY on another thread while
+                                the enabling thread has not resumed), for the usages "compound added before the start" /
+                                "added to a running context".  Refines Compound for the order of the code; three other
+                                orders (cursor incremented after enabling the successor, accounting after enabling the
+                                first member, ready before the accounting) are kept as sensitivity self-tests.
+spec/Context/CompoundTrace.tla  validation of real compositions: generated PTG taskpools (spaces computed by
+                                spec/PTG/JDFSem.tla) and map-operator taskpools (Layout event)
+harness/compound/compound_run.c compositions of tiny / EMPTY map-operator taskpools, both usages, noise mode
 """
+import concurrent.futures
+import itertools
 import json
 import os
 import shutil
 
 from harness.ptg import ptgrun
-from lib import jdfgen, mcgen, tlc
+from lib import jdfgen, mcgen, tlc, tracecheck
 
 META = {
     "level": "model_checking",
-    "text": "TLC checks that the implementation-shaped model of parsec_compose / compound startup / member completion "
-            "callback refines the one-after-another specification for up to 4 members x 2 tasks, and real compositions of "
-            "1..20 instances of generated PTG programs (crossing the 16-entry growth of the member array) run under several "
-            "schedulers and thread counts; TLC validates each recorded execution: no body of a later member starts before "
-            "every instance of the earlier members ended, and the completion callback of the composed taskpool is called "
-            "exactly once, after the last instance.",
-    "note": "Members are instances of 4 tiny generated programs with different globals (1-8 tasks each). The completion of "
-            "the compound is observed through parsec_taskpool_set_complete_callback on the object parsec_compose returns.",
-    "technique": "TLA+ refinement (TLC) + real compositions of generated taskpools + trace validation (TLC)",
+    "text": "TLC checks that the implementation-shaped model of the compound startup hook and of the completion callback "
+            "of a composed taskpool (every statement a step, callbacks nested inside parsec_context_add_taskpool for "
+            "members without task or concurrent on another thread, compound enqueued before the start or into a running "
+            "context) refines the one-after-another specification for every layout of up to 3 (thorough: 4) members with "
+            "0..2 tasks, and that three other statement orders do not.  The terminal states of the model give the "
+            "scenarios replayed on the real code; in addition every layout of 1..6 tiny / empty members under both usages, "
+            "1-4 threads and several schedulers, runs where the enabling thread is held back until another thread has "
+            "finished the successor, and compositions of 1..20 generated PTG taskpools (some with an empty execution "
+            "space).  TLC validates each recorded execution: no body of a later member starts before every instance of "
+            "the earlier members ended, the completion callback of the composed taskpool is called exactly once, after "
+            "the last instance; a composition that does not complete is a Timeout (confirmed with a 10x window).",
+    "note": "Members: map-operator taskpools over 0..4 local tiles (0 = terminates inside parsec_context_add_taskpool) and "
+            "instances of 4 tiny generated PTG programs (0-8 tasks). The completion of the compound is observed through "
+            "parsec_taskpool_set_complete_callback on the object parsec_compose returns. The noise mode only steers the "
+            "interleaving (startup-hook wrapper / parsec_verif_point_fn), it is not part of the verdict.",
+    "technique": "TLA+ refinement (TLC) + model-generated and enumerated compositions on the real code + trace validation (TLC)",
 }
+
+IMPL_INV = ("OneAfterAnother", "CompletesOnceAfterLast", "EnabledOnce", "CursorMatches", "NextExists", "Accounted",
+            "ContextCount", "Emit")
+PROP_INV = ("OneAfterAnother", "CompletesOnceAfterLast", "EnabledOnce")
+IMPL_COVER = ("AddCompound", "MainWait", "SAcct", "SReady", "SAdd", "Ret", "CInc", "CDec", "CAdd", "TaskStart", "TaskEnd",
+              "MemberTerminates")
+SHAPES = {1: ["T1x1"], 2: ["T2x1", "T1x2"], 3: ["T1x3", "T3x1"], 4: ["T2x2"]}
 
 
 def compose_programs():
@@ -53,53 +74,315 @@ def member_prog(p, g):
     return q
 
 
-def run(ctx):
-    # ---- 1. model level
-    d = ctx.stage("Context")
-    shutil.copy(os.path.join(ctx.spec("PTG"), "JDFSem.tla"), os.path.join(d, "JDFSem.tla"))
-    sizes = [(3, [2, 1, 2])] if ctx.quick else [(3, [2, 1, 2]), (4, [2, 2, 1, 2]), (1, [2]), (2, [3, 3])]
-    for np_, nt in sizes:
-        mod, cfg = mcgen.write_mc(d, "abs%d" % np_, "Compound", {"NP": np_, "NT": nt},
-                                  invariants=("OneAfterAnother", "CompletesOnceAfterLast"), deadlock=True)
-        ctx.tlc_check(d, mod, cfg, must_cover=("TaskStart", "TaskEnd", "PoolDone", "CompoundDone"), workers=2,
-                      jvm=ptgrun.JVM_SHORT)
-        mod, cfg = mcgen.write_mc(d, "impl%d" % np_, "CompoundImpl", {"NP": np_, "NT": nt, "ReadyBeforeStartup": False},
-                                  invariants=("CompletesOnceAfterLast", "OneAfterAnother", "CompletesAtEnd", "ContextCount"),
-                                  deadlock=True)
-        ctx.tlc_check(d, mod, cfg, must_cover=("Startup", "TaskStart", "TaskEnd", "MemberDone"), workers=2,
-                      jvm=ptgrun.JVM_SHORT)
-    # the order of scheduling.c:parsec_context_add_taskpool (taskpool_ready before the startup hook): the model must
-    # show the early completion (this is what the real runs below exhibit as long as compound.c is not repaired)
-    mod, cfg = mcgen.write_mc(d, "impl_ready_first", "CompoundImpl", {"NP": 2, "NT": [1, 1], "ReadyBeforeStartup": True},
-                              invariants=("CompletesOnceAfterLast", "OneAfterAnother"), deadlock=True)
-    r = ctx.tlc_check(d, mod, cfg, expect_ok=False, workers=1, jvm=ptgrun.JVM_SHORT)
-    if r.violated != "CompletesOnceAfterLast":
-        raise tlc.TLCError("sensitivity self-test: ready-before-startup must violate CompletesOnceAfterLast, got %r" % r.violated)
+def layouts_tla(lo, hi, maxt):
+    return mcgen.Raw("UNION {[1..n -> 0..%d] : n \\in %d..%d}" % (maxt, lo, hi))
+
+
+# ------------------------------------------------------------------------------------------------ model level
+def model_level(ctx, d):
+    """Returns the scenarios (layout, usage, sync, win) of the terminal states of the model with the code's order."""
+    maxp = 3 if ctx.quick else 4
+    mod, cfg = mcgen.write_mc(d, "abs", "Compound", {"Layouts": layouts_tla(1, maxp, 2)},
+                              invariants=("OneAfterAnother", "CompletesOnceAfterLast"), deadlock=True)
+    ctx.tlc_check(d, mod, cfg, must_cover=("TaskStart", "TaskEnd", "PoolDone", "CompoundDone"), workers=2,
+                  jvm=ptgrun.JVM_SHORT)
+    sizes = [(maxp, 2)] if ctx.quick else [(4, 2), (3, 3)]
+    scen = {}
+    for mp, nth in sizes:
+        consts = {"Layouts": layouts_tla(2, mp, 2), "NTH": nth, "Order": "code", "Usages": {"before", "running"}}
+        mod, cfg = mcgen.write_mc(d, "impl_code_%d_%d" % (mp, nth), "CompoundImpl", consts, invariants=IMPL_INV,
+                                  properties=("Refines",), deadlock=True)
+        r = ctx.tlc_check(d, mod, cfg, must_cover=IMPL_COVER, workers=2 if ctx.quick else 4, jvm=ptgrun.JVM_SHORT,
+                          timeout=3000)
+        for line in r.printed:
+            h = tlc._parse_tla_string_list(line)
+            if h is None:
+                raise tlc.TLCError("unreadable scenario line printed by CompoundImpl: %r" % line[:200])
+            key = (tuple(h["nt"]), h["usage"], tuple(sorted(h["sync"])), tuple(sorted(h["win"])))
+            scen[key] = {"nt": list(key[0]), "usage": key[1], "sync": list(key[2]), "win": list(key[3])}
+    if not scen or not any(s["win"] for s in scen.values()) or not any(s["sync"] for s in scen.values()):
+        raise tlc.TLCError("vacuity guard: CompoundImpl produced %d scenarios, none with a nested / concurrent completion"
+                           % len(scen))
+    # sensitivity: each of the other statement orders must be rejected (property-level invariants, refinement, deadlock)
+    small = {"Layouts": layouts_tla(2, 3, 1), "NTH": 2, "Usages": {"before", "running"}}
+    expect = {"cursor_after_enable": ("EnabledOnce",), "account_after_enable": ("deadlock",),
+              "ready_before_account": None}
+    got = {}
+    for order, want in expect.items():
+        consts = dict(small)
+        consts["Order"] = order
+        mod, cfg = mcgen.write_mc(d, "impl_" + order, "CompoundImpl", consts, invariants=PROP_INV,
+                                  properties=("Refines",), deadlock=True)
+        r = ctx.tlc_check(d, mod, cfg, expect_ok=False, workers=1, jvm=ptgrun.JVM_SHORT)
+        got[order] = "ok" if r.ok else (r.violated or "refinement")
+        if r.ok or (want is not None and r.violated not in want):
+            raise tlc.TLCError("sensitivity self-test: CompoundImpl with Order=%s must be rejected (%s), got %r" % (
+                order, want or "any", got[order]))
+    ctx.extra["model_sensitivity"] = got
+    ctx.extra["model_scenarios"] = len(scen)
     ctx.exhaustive = True
-    # ---- 2. real compositions
+    return [scen[k] for k in sorted(scen)]
+
+
+# ------------------------------------------------------------------------------------------------ map-operator compositions
+def shape(rng, n):
+    return rng.choice(SHAPES[n])
+
+
+def scenario_run(rng, sc, k):
+    members = []
+    for i, n in enumerate(sc["nt"]):
+        if n > 0:
+            members.append(shape(rng, n))
+        else:
+            members.append("E" if (i + 1) in sc["sync"] else "Z")
+    delay = sum(1 << (m - 1) for m in sc["win"])
+    late = 0 if sc["usage"] == "before" else 1 + (k % 2)
+    return {"members": members, "late": late, "delay": delay, "dmode": 1 + (k // 2) % 2, "nz": 0, "src": "model"}
+
+
+def enumerated_runs(rng, quick):
+    """every layout of 1..6 members, each a tiny taskpool or an empty one, under both usages"""
+    runs = []
+    k = 0
+    for n in range(1, 7):
+        for lay in itertools.product("TE", repeat=n):
+            for usage in (0, 1):
+                members = [shape(rng, rng.choice((1, 1, 2, 2, 3, 4))) if c == "T" else "E" for c in lay]
+                k += 1
+                runs.append({"members": members, "late": 0 if usage == 0 else 1 + k % 2, "delay": 0, "dmode": 1, "nz": 0,
+                             "src": "enum"})
+    return runs
+
+
+def noise_runs(rng, quick):
+    """the enabling thread is held back after the tasks of the successor were handed to the scheduler"""
+    runs = []
+    for k in range(24 if quick else 120):
+        n = rng.randint(2, 6)
+        members = []
+        for i in range(n):
+            c = rng.random()
+            members.append("E" if c < 0.08 else "Z" if c < 0.2 else shape(rng, rng.choice((1, 1, 2, 2, 3, 4))))
+        allm = (1 << n) - 1
+        delay = allm if k % 3 == 0 else (rng.randint(1, allm) if k % 3 == 1 else 1 << rng.randrange(n))
+        runs.append({"members": members, "late": (2, 0, 1, 2)[k % 4], "delay": delay, "dmode": 1 + k % 2,
+                     "nz": (0, 0, 15, 40)[(k // 2) % 4], "src": "noise"})
+    return runs
+
+
+def run_line(r, rid):
+    return "id=%d members=%s late=%d delay=%d dmode=%d wait_us=%d nz=%d" % (
+        rid, ",".join(r["members"]), r["late"], r["delay"], r["dmode"], r.get("wait_us", 50000), r["nz"])
+
+
+def compound_env(cfg):
+    return {"OMPI_MCA_ess_singleton_isolated": "1", "OMPI_MCA_btl": "self", "OMPI_MCA_pml": "ob1",
+            "PARSEC_MCA_mca_sched": cfg["sched"]}
+
+
+def run_compound_process(ctx, exe, runs, ids, cfg, tag, window_ms, timeout):
+    """one process = one parsec context; returns ({id: events}, rc, stats)"""
+    d = os.path.join(ctx.scratch, "compound")
+    os.makedirs(d, exist_ok=True)
+    rf, tr = os.path.join(d, "runs-%s.txt" % tag), os.path.join(d, "trace-%s.ndjson" % tag)
+    with open(rf, "w") as f:
+        for i in ids:
+            f.write(run_line(runs[i], i) + "\n")
+    rc, out, err = ctx.run_cmd([exe, "runs=" + rf, "out=" + tr, "cores=%d" % cfg["cores"], "window_ms=%d" % window_ms],
+                               timeout=timeout, env=compound_env(cfg))
+    evs = tracecheck.read_ndjson(tr) if os.path.exists(tr) else []
+    per, stats = {}, {}
+    for e in evs:
+        if e.get("e") == "ProcessDone":
+            stats = e
+        elif "r" in e:
+            per.setdefault(e["r"], []).append(e)
+    for p in (rf, tr):
+        try:
+            os.unlink(p)
+        except OSError:
+            pass
+    if rc == 3 or rc == "timeout":
+        raise tlc.TLCError("compound_run (%s) failed rc=%s: %s" % (tag, rc, err[-400:]))
+    return per, rc, stats, err[-300:]
+
+
+def run_compound_config(ctx, exe, runs, ids, cfg, ci, window_ms):
+    """all the compositions `ids` under one configuration; the process ends at a composition that hangs or crashes:
+    restart after it (at most 3 casualties per configuration)."""
+    res, todo, casualties, stats_all = {}, list(ids), [], {"waits": 0, "waits_ok": 0, "noise": 0}
+    rounds = 0
+    while todo and len(casualties) < 3:
+        rounds += 1
+        per, rc, stats, err = run_compound_process(ctx, exe, runs, todo, cfg, "c%d-%d" % (ci, rounds), window_ms,
+                                                   timeout=240 + 2 * window_ms // 1000)
+        for k in stats_all:
+            stats_all[k] += stats.get(k, 0)
+        last = -1
+        for pos, i in enumerate(todo):
+            if i in per:
+                res[i] = per[i]
+                last = pos
+        if rc == 0:
+            todo = todo[last + 1:]
+            break
+        if last < 0:
+            raise tlc.TLCError("compound_run died before its first composition (rc=%s): %s" % (rc, err))
+        casualties.append(todo[last])
+        todo = todo[last + 1:]
+    return res, casualties, len(todo), stats_all
+
+
+def to_execution(evs):
+    ex = []
+    for ev in evs or []:
+        k = ev.get("e")
+        if k == "Layout":
+            ex.append({"e": "Layout", "sizes": ev["sizes"]})
+        elif k in ("Start", "End"):
+            ex.append({"e": k, "sp": ev["sp"], "c": ev["c"], "p": ev["p"]})
+        elif k in ("Run", "Final"):
+            ex.append({"e": k})
+        elif k == "TpDone":
+            ex.append({"e": "TpDone", "n": ev["n"]})
+        else:
+            ex.append({x: y for x, y in ev.items() if x not in ("s", "r", "th")})
+    if not ex or ex[-1].get("e") not in ("Final", "Timeout", "Crash"):
+        ex.append({"e": "Crash", "what": "the composition did not reach its end"})
+    return ex
+
+
+def compound_compositions(ctx, d, scenarios):
+    exe = ctx.harness("c15_compound", ["harness/compound/compound_run.c"])
+    rng = ctx.rng
+    cfgs = [{"sched": "lfq", "cores": 1}, {"sched": "lfq", "cores": 3}, {"sched": "ap", "cores": 2},
+            {"sched": "spq", "cores": 4}, {"sched": "ll", "cores": 2}, {"sched": "gd", "cores": 4}]
+    if not ctx.quick:
+        cfgs += [{"sched": "ip", "cores": 3}, {"sched": "pbq", "cores": 4}, {"sched": "rnd", "cores": 2},
+                 {"sched": "ltq", "cores": 3}, {"sched": "lhq", "cores": 4}, {"sched": "llp", "cores": 1}]
+    multi = [i for i, c in enumerate(cfgs) if c["cores"] > 1]
+    # scenarios of the model: all of them (thorough) or a sample that keeps every scenario with a concurrent completion
+    scs = list(scenarios)
+    if ctx.quick and len(scs) > 160:
+        withwin = [s for s in scs if s["win"]]
+        rest = [s for s in scs if not s["win"]]
+        rng.shuffle(withwin)
+        rng.shuffle(rest)
+        scs = withwin[:100] + rest[:60]
+    runs, assign = [], []
+    for k, sc in enumerate(scs):
+        runs.append(scenario_run(rng, sc, k))
+        assign.append([multi[k % len(multi)]] if sc["win"] else [k % len(cfgs)])
+    for k, r in enumerate(enumerated_runs(rng, ctx.quick)):
+        runs.append(r)
+        a = (k + ctx.seed) % len(cfgs)
+        assign.append([a, (a + 1 + k // len(cfgs)) % len(cfgs)] if ctx.quick else list(range(len(cfgs))))
+    for k, r in enumerate(noise_runs(rng, ctx.quick)):
+        runs.append(r)
+        assign.append([multi[k % len(multi)], multi[(k + 2) % len(multi)]] if ctx.quick else multi)
+    per_cfg = {ci: [i for i, a in enumerate(assign) if ci in a] for ci in range(len(cfgs))}
+    window = 3000
+    with concurrent.futures.ThreadPoolExecutor(max_workers=4) as pool:
+        results = list(pool.map(lambda ci: run_compound_config(ctx, exe, runs, per_cfg[ci], cfgs[ci], ci, window),
+                                range(len(cfgs))))
+    executions, metas, hung = [], [], []
+    stats = {"waits": 0, "waits_ok": 0, "noise": 0}
+    not_run = 0
+    for ci, (res, casualties, left, st) in enumerate(results):
+        not_run += left
+        for k in stats:
+            stats[k] += st[k]
+        for i in per_cfg[ci]:
+            if i not in res:
+                continue
+            ex = to_execution(res[i])
+            meta = {"run": runs[i], "config": cfgs[ci], "line": run_line(runs[i], i)}
+            if i in casualties and any(ev.get("e") == "Timeout" for ev in ex):
+                hung.append((ci, i, meta, ex))
+            else:
+                executions.append(ex)
+                metas.append(meta)
+    # a composition that did not complete: believe it only when it does not complete with a 10x window either
+    confirmed = []
+    for ci, i, meta, ex in hung[:4]:
+        per, rc, st, err = run_compound_process(ctx, exe, runs, [i], cfgs[ci], "again-%d-%d" % (ci, i), 10 * window,
+                                                timeout=300 + 10 * window // 1000)
+        ex2 = to_execution(per.get(i))
+        if any(ev.get("e") == "Timeout" for ev in ex2):
+            confirmed.append((meta, ex2))
+        else:
+            ctx.extra["timeouts_not_confirmed"] = ctx.extra.get("timeouts_not_confirmed", 0) + 1
+            executions.append(ex2)
+            metas.append(meta)
+    ctx.extra["map_operator_compositions"] = len(executions) + len(hung)
+    ctx.extra["map_operator_layouts"] = len(set(tuple(m["run"]["members"]) for m in metas))
+    ctx.extra["enabler_waits"] = stats
+    ctx.extra["hung_compositions"] = len(hung)
+    if not_run:
+        ctx.extra["not_run_after_three_casualties"] = not_run
+    ctx.evaluations += len(executions) + len(hung)
+    for m, ex in zip(metas, executions):
+        if m["run"]["src"] == "model" and m["run"]["delay"]:
+            ctx.sample({"composition": m["line"], "config": m["config"], "events": ex[:12], "nevents": len(ex)})
+            break
+    # validation: distinct event sequences only
+    distinct, mult = tracecheck.dedupe(executions)
+    first = {}
+    for m, ex in zip(metas, executions):
+        first.setdefault(json.dumps(ex, sort_keys=True), m)
+    dmetas = [first[json.dumps(ex, sort_keys=True)] for ex in distinct]
+    ctx.extra["map_operator_distinct_executions"] = len(distinct)
+    fails = ctx.validate(d, "CompoundTrace", "CompoundTrace.cfg", distinct, batch=400, timeout=1500, max_failures=2)
+    ctx.traces += len(executions) - len(distinct)
+    for f in fails:
+        m = dmetas[f.index]
+        ctx.violation("composition `%s` (map-operator taskpools; E = no local tile, Z = one silent task) under %s is "
+                      "rejected by CompoundTrace: %s" % (m["line"], m["config"], json.dumps(f.describe())[:700]),
+                      {"meta": m, "events": f.execution, "detail": f.describe()})
+    for meta, ex in confirmed[:2]:
+        for f in ctx.validate(d, "CompoundTrace", "CompoundTrace.cfg", [ex], timeout=600):
+            ctx.violation("composition `%s` (map-operator taskpools; E = no local tile, Z = one silent task) under %s never "
+                          "completes (no event for %d ms, confirmed with a 10x window; %d compositions hang in this run): %s"
+                          % (meta["line"], meta["config"], window, len(hung), json.dumps(f.describe())[:500]),
+                          {"meta": meta, "events": ex, "detail": f.describe()})
+    return distinct
+
+
+# ------------------------------------------------------------------------------------------------ PTG compositions
+def ptg_compositions(ctx, d):
     ents = compose_programs()
     exe = ptgrun.build_driver(ctx, [e["prog"] for e in ents], "c15",
                               backends={e["prog"]["name"]: ("dynamic-hash-table" if i % 2 else "index-array")
                                         for i, e in enumerate(ents)})
-    lengths = [1, 2, 3, 4, 5, 8, 10, 15, 16, 17, 18, 20] if ctx.quick else list(range(1, 21)) + [16, 17, 32, 33]
+    lengths = [1, 2, 3, 4, 6, 15, 16, 17, 20] if ctx.quick else list(range(1, 21)) + [16, 17, 32, 33]
     runs = []
     for k, n in enumerate(lengths):
         e = ents[k % len(ents)]
         pools = [(ctx.rng.randint(1, e["nmax"]), ctx.rng.randint(1, 2), 1) for _ in range(n)]
-        ntasks = sum(len(jdfgen.Interp(member_prog(e["prog"], g)).order) for g in pools)
-        runs.append({"prog": e["prog"], "pools": pools, "maxev": 2 * ntasks + 10, "entry": e})
+        runs.append({"prog": e["prog"], "pools": pools, "entry": e})
+    # members with an empty execution space (N = 0): every position in short compositions, random ones in longer ones
+    for k, n in enumerate([2, 3, 3, 4, 5, 6] if ctx.quick else [2, 2, 3, 3, 3, 4, 4, 5, 5, 6, 6, 9, 18]):
+        e = ents[(k + 1) % len(ents)]
+        pools = [(ctx.rng.randint(1, e["nmax"]), ctx.rng.randint(1, 2), 1) for _ in range(n)]
+        empties = set([k % n] + [i for i in range(n) if ctx.rng.random() < 0.3])
+        pools = [(0, p[1], 1) if i in empties else p for i, p in enumerate(pools)]
+        runs.append({"prog": e["prog"], "pools": pools, "entry": e})
+    for r in runs:
+        ntasks = sum(len(jdfgen.Interp(member_prog(r["prog"], g)).order) for g in r["pools"])
+        r["maxev"] = 2 * ntasks + 10
     cfgs = [{"sched": "lfq", "cores": 4, "conc": 4}, {"sched": "ap", "cores": 1, "conc": 1},
-            {"sched": "spq", "cores": 2, "conc": 8}, {"sched": "ll", "cores": 16 if not ctx.quick else 6, "conc": 8},
-            {"sched": "gd", "cores": 3, "conc": 2, "noise": 3}, {"sched": "ip", "cores": 4, "conc": 12, "noise": 8}]
+            {"sched": "spq", "cores": 2, "conc": 8}, {"sched": "ip", "cores": 4, "conc": 12, "noise": 8}]
     if not ctx.quick:
+        cfgs += [{"sched": "ll", "cores": 16, "conc": 8}, {"sched": "gd", "cores": 3, "conc": 2, "noise": 3}]
         cfgs += [{"sched": s, "cores": c, "conc": 4, "noise": i + 1}
                  for i, (s, c) in enumerate([("gd", 3), ("ip", 2), ("rnd", 4), ("pbq", 8), ("ltq", 2), ("lhq", 5), ("llp", 4)])]
     executions, metas = [], []
-    import concurrent.futures
     with concurrent.futures.ThreadPoolExecutor(max_workers=4) as pool:
         results = list(pool.map(lambda ci: (ci, ptgrun.run_config(ctx, exe, runs, cfgs[ci], "c15-%d" % ci, window_ms=2000)),
                                 range(len(cfgs))))
-    def to_execution(r, evs, info):
+
+    def to_ex(r, evs, info):
         ex = [{"e": "Prog", "prog": r["prog"], "pools": [list(g) for g in r["pools"]]}]
         if evs is None:
             ex.append({"e": "Crash", "what": "the process died before this run", "info": info["stderr"][-200:]})
@@ -123,7 +406,7 @@ def run(ctx):
     retry = {}
     for ci, (per, info) in results:
         for ri, (r, evs) in enumerate(zip(runs, per)):
-            ex = to_execution(r, evs, info)
+            ex = to_ex(r, evs, info)
             if any(ev.get("e") in ("Timeout", "Runaway") for ev in ex):
                 retry.setdefault(ci, []).append(ri)       # re-run once with a 10x window before believing it
             executions.append(ex)
@@ -136,16 +419,17 @@ def run(ctx):
         with concurrent.futures.ThreadPoolExecutor(max_workers=4) as pool:
             for ci, (per, info) in pool.map(again_cfg, sorted(retry)):
                 for ri, evs in zip(retry[ci], per):
-                    ex = to_execution(runs[ri], evs, info)
+                    ex = to_ex(runs[ri], evs, info)
                     k = [i for i, m in enumerate(metas) if m["_key"] == (ci, ri)][0]
                     if not any(ev.get("e") in ("Timeout", "Runaway") for ev in ex):
                         ctx.extra["timeouts_not_confirmed"] = ctx.extra.get("timeouts_not_confirmed", 0) + 1
                     executions[k] = ex
     for m in metas:
         m.pop("_key")
-    ctx.evaluations = len(executions)
+    ctx.evaluations += len(executions)
     ctx.extra["compositions"] = len(executions)
     ctx.extra["member_counts"] = sorted(set(len(r["pools"]) for r in runs))
+    ctx.extra["compositions_with_empty_ptg_members"] = sum(1 for m in metas if any(g[0] == 0 for g in m["globals"]))
     order = sorted(range(len(executions)), key=lambda i: (metas[i]["program"], metas[i]["members"]))
     executions = [executions[i] for i in order]
     metas = [metas[i] for i in order]
@@ -166,30 +450,57 @@ def run(ctx):
                 m["members"], m["program"], m["tags"], m["config"], json.dumps(f.describe())[:700]),
                 {"meta": m, "events": f.execution, "detail": f.describe()},
                 key=("compound-completes-at-start" if early else None))
-    if not ctx.violations and not ctx.known_hits:
-        cands = [executions[i] for i, m in enumerate(metas) if m["members"] in (2, 3)]
-        if cands:
-            def overlap(ex):        # the first body of the second member moved before the last End of the first
-                i2 = [i for i, ev in enumerate(ex) if ev.get("e") == "Start" and ev.get("sp") == 1]
-                e1 = [i for i, ev in enumerate(ex) if ev.get("e") == "End" and ev.get("sp") == 0]
-                if not i2 or not e1:
-                    return None
-                ev = ex.pop(i2[0])
-                ex.insert(e1[-1], ev)
-                return ex
+    return executions, metas
 
-            def early_done(ex):     # completion callback before the last member
-                i = [k for k, ev in enumerate(ex) if ev.get("e") == "TpDone"]
-                if not i:
-                    return None
-                ev = ex.pop(i[0])
-                ex.insert(2, ev)
-                return ex
-            ptgrun.corruption_selftest(ctx, d, "CompoundTrace", "CompoundTrace.cfg", cands[0], overlap,
-                                       "a body of member 2 before the end of member 1")
-            ptgrun.corruption_selftest(ctx, d, "CompoundTrace", "CompoundTrace.cfg", cands[0], early_done,
-                                       "completion callback before the members ran")
-    ctx.assume("members are PTG taskpools; a composition of one taskpool is the taskpool itself (parsec_compose(NULL, tp))")
+
+def run(ctx):
+    d = ctx.stage("Context")
+    shutil.copy(os.path.join(ctx.spec("PTG"), "JDFSem.tla"), os.path.join(d, "JDFSem.tla"))
+    with ptgrun.phase(ctx, "model_checking"):
+        scenarios = model_level(ctx, d)
+    with ptgrun.phase(ctx, "map_operator_compositions"):
+        distinct = compound_compositions(ctx, d, scenarios)
+    with ptgrun.phase(ctx, "ptg_compositions"):
+        executions, metas = ptg_compositions(ctx, d)
+    if not ctx.violations and not ctx.known_hits:
+        with ptgrun.phase(ctx, "corruption_selftests"):
+            selftests(ctx, d, executions, metas, distinct)
+    ctx.assume("members are PTG taskpools (generated programs, map operators); a composition of one taskpool is the "
+               "taskpool itself (parsec_compose(NULL, tp))")
+
+
+def selftests(ctx, d, executions, metas, distinct):
+    def overlap(ex):        # the first body of the second member moved before the last End of the first
+        i2 = [i for i, ev in enumerate(ex) if ev.get("e") == "Start" and ev.get("sp") == 1]
+        e1 = [i for i, ev in enumerate(ex) if ev.get("e") == "End" and ev.get("sp") == 0]
+        if not i2 or not e1:
+            return None
+        ev = ex.pop(i2[0])
+        ex.insert(e1[-1], ev)
+        return ex
+
+    def early_done(ex):     # completion callback before the last member
+        i = [k for k, ev in enumerate(ex) if ev.get("e") == "TpDone"]
+        if not i:
+            return None
+        ev = ex.pop(i[0])
+        ex.insert(2, ev)
+        return ex
+
+    def no_done(ex):        # the compound never completed
+        return [ev for ev in ex if ev.get("e") != "TpDone"]
+
+    cands = [executions[i] for i, m in enumerate(metas) if m["members"] in (2, 3) and all(g[0] > 0 for g in m["globals"])]
+    if cands:
+        ptgrun.corruption_selftest(ctx, d, "CompoundTrace", "CompoundTrace.cfg", cands[0], overlap,
+                                   "a body of member 2 before the end of member 1")
+        ptgrun.corruption_selftest(ctx, d, "CompoundTrace", "CompoundTrace.cfg", cands[0], early_done,
+                                   "completion callback before the members ran")
+    cands = [ex for ex in distinct if len(ex[0]["sizes"]) >= 3 and ex[0]["sizes"][0][0] > 0 and ex[0]["sizes"][1][0] == 0
+             and ex[0]["sizes"][2][0] > 0]
+    if cands:
+        ptgrun.corruption_selftest(ctx, d, "CompoundTrace", "CompoundTrace.cfg", cands[0], no_done,
+                                   "a composition with an empty member that never completes")
 
 
 def replay(ctx, obj):
